@@ -119,6 +119,59 @@ theorem inertiaPos_sound (B : Mat n n K) (σ : K) (p : Nat) (h : inertiaPos B σ
   rw [← hp, ← hcount]
   exact hcard
 
+/-! ### the tolerance-proof extremality certificate -/
+
+/-- **soundness of `psdCert`**: a closing elimination without negative pivots proves positive semi-definiteness -/
+theorem psdCert_sound (M : Mat n n K) (h : psdCert M = true) (x : Fin n → K) : 0 ≤ x ⬝ᵥ (Mat.toM M *ᵥ x) := by
+  unfold psdCert at h
+  set s := ldlRun M with hs
+  simp only [Bool.and_eq_true] at h
+  obtain ⟨hz, hnn⟩ := h
+  have hval := ldlRun_value M
+  rw [← hs] at hval
+  set L := s.pivots.zip s.cols with hL
+  have hM : ∀ i j, Mat.toM M i j = ∑ k : Fin L.length, (L.get k).1 * (L.get k).2.get i * (L.get k).2.get j := by
+    intro i j
+    have := congrFun (congrFun hval i) j
+    rw [Mat.toM_apply, ← this, LdlState.value, (isZeroMat_iff _).1 hz i j, zero_add, termsSum, list_sum_map_eq_fin]
+  rw [quad_of_rank_one_sum (fun k : Fin L.length => (L.get k).1) (fun k => (L.get k).2.get) (Mat.toM M) hM]
+  refine Finset.sum_nonneg fun k _ => mul_nonneg ?_ (mul_self_nonneg _)
+  have hmem : (L.get k).1 ∈ s.pivots := (List.of_mem_zip (List.get_mem L k)).1
+  have := List.all_eq_true.1 hnn _ hmem
+  simpa using this
+
+/-- **soundness of `extremalDeflated`, for ANY `V`, `c`, `σ`** (no exactness of eigenpairs, no symmetry): if the check
+    passes, the quadratic form of `B` is at most `σ` on the orthogonal complement of the columns of `V`.  This is the
+    extremality half of the certificate *as it is run on `double` output*: the only facts about `(V, lam)` used by the
+    property beyond it are the measured residual and orthonormality defects themselves. -/
+theorem extremalDeflated_sound (B : Mat n n K) (V : Mat n d K) (c : Vec d K) (σ : K)
+    (h : extremalDeflated B V c σ = true) :
+    ∀ x : Fin n → K, (Mat.toM V)ᵀ *ᵥ x = 0 → x ⬝ᵥ (Mat.toM B *ᵥ x) ≤ σ * (x ⬝ᵥ x) := by
+  intro x hx
+  have hpsd := psdCert_sound (deflated B V c σ) h x
+  have hvx : ∀ j, ∑ k, V k j * x k = 0 := by
+    intro j
+    have := congrFun hx j
+    simpa [mulVec, dotProduct] using this
+  have e : x ⬝ᵥ (Mat.toM (deflated B V c σ) *ᵥ x) = σ * (x ⬝ᵥ x) - x ⬝ᵥ (Mat.toM B *ᵥ x) := by
+    have hrow : ∀ i, (Mat.toM (deflated B V c σ) *ᵥ x) i = σ * x i - (Mat.toM B *ᵥ x) i := by
+      intro i
+      simp only [mulVec, dotProduct, Mat.toM_apply, deflated, sumFin_eq_sum, add_mul, sub_mul, Finset.sum_add_distrib,
+        Finset.sum_sub_distrib, ite_mul, zero_mul, Finset.sum_ite_eq, Finset.mem_univ, if_true]
+      have : ∑ k, (∑ j, c j * V i j * V k j) * x k = 0 := by
+        simp only [Finset.sum_mul]
+        rw [Finset.sum_comm]
+        refine Finset.sum_eq_zero fun j _ => ?_
+        rw [show (∑ k, c j * V i j * V k j * x k) = c j * V i j * ∑ k, V k j * x k by
+          rw [Finset.mul_sum]; exact Finset.sum_congr rfl fun k _ => by ring]
+        rw [hvx j, mul_zero]
+      rw [this, add_zero]
+    simp only [dotProduct, hrow, mul_sub, Finset.sum_sub_distrib, Finset.mul_sum]
+    congr 1
+    exact Finset.sum_congr rfl fun i _ => by ring
+  rw [e] at hpsd
+  linarith
+
 /-! ### extremality of the returned eigenpairs -/
 
 omit [LinearOrder K] [IsStrictOrderedRing K] in
